@@ -1,4 +1,6 @@
 """C02 — BGZF virtual positions name bytes: structural clauses (DESIGN.md §5 C02)."""
+import re
+
 from .. import cfg as C
 from .. import rules as R
 
@@ -362,3 +364,83 @@ def stamp_position_rule(ctx, rule, prefixes, floor):
                           "past that block (no write derived from Block::size): every later block is stamped too low and virtual positions and "
                           "chunk-end tests are off by one block" % f.root, f.loc(bad))
     ctx.floor(rule, "block stamps in the BGZF readers", nst, floor)
+
+
+def skip_empty_blocks_rule(ctx, rule, floor=3):
+    """Sibling agreement of the three BGZF readers (single-threaded, multithreaded, async): the sequential loader behind
+    fill_buf / poll_fill_buf keeps loading while the block it got is EMPTY — an empty block in the middle of a file (the EOF
+    marker of the first of two concatenated files) is not end of stream. Structure: the stamp of the loaded block sits in a loop
+    that has an exit edge controlled by the block's data length (Data::len / has_remaining / is_empty)."""
+    fb = ctx.fb
+    entries = [k for k, f in fb.fns.items() if k.startswith("<noodles_bgzf::") and "reader" in k and f.blocks and
+               (f.trait_item or "").split("::")[-1] in ("fill_buf", "poll_fill_buf") and "block::data" not in k]
+    n = 0
+    for ek in sorted(entries):
+        e = fb.fns[ek]
+        ctx.saw_fn(e)
+        # the loader: the entry itself or a bgzf function within three calls that stamps the block
+        seen, work, loaders = {ek}, [(e, 0)], []
+        while work:
+            f, d = work.pop()
+            if any((c.get("f") or "") == "noodles_bgzf::io::block::Block::set_position" for _b, c in f.calls()):
+                loaders.append(f)
+                continue
+            if d >= 3:
+                continue
+            for _b, c in f.calls():
+                g = fb.fns.get(c.get("f") or "")
+                if g is not None and g.blocks and g.key not in seen and g.key.startswith(("noodles_bgzf::", "<noodles_bgzf::")):
+                    seen.add(g.key)
+                    work.append((g, d + 1))
+        if not loaders:
+            ctx.violation(rule, "%s/ANCHOR-MISSING/%s/loader" % (rule, ek), "no block-stamping loader found behind %s" % ek, e.loc())
+            continue
+        n += 1
+        for f in loaders:
+            ctx.saw_fn(f)
+            loops = C.natural_loops(f)
+            stamps = [b for b, c in f.calls() if (c.get("f") or "") == "noodles_bgzf::io::block::Block::set_position"]
+            ok = False
+            for sb in stamps:
+                for h, body in loops:
+                    if sb not in body:
+                        continue
+                    # an exit of this loop controlled by the data length of the block
+                    tests = set()
+                    for b2, c2 in f.calls():
+                        if b2 in body and re.search(r"block::data::Data::(len|has_remaining|is_empty)$|Buf>::has_remaining$|Buf>::remaining$", c2.get("f") or "") \
+                                and c2.get("dest") and not c2["dest"][1]:
+                            from .. import a10
+                            tests |= a10._derived_from(f, c2["dest"][0])
+                    for s in body:
+                        t = f.blocks[s]["t"]
+                        if t[0] == "sw" and C.op_local(t[1]) in tests:
+                            targets = [tg for _v, tg in t[2]] + ([t[3]] if t[3] is not None else [])
+                            if any(tg not in body for tg in targets) or any(_leaves_loop(f, tg, body) for tg in targets):
+                                ok = True
+            if ok:
+                ctx.ok(rule, "%s -> %s" % (ek, f.key), "the block stamp sits in a loop that is left only when the loaded block has data (or at end of stream)", f.loc())
+            else:
+                ctx.violation(rule, "%s/empty-block-ends-the-stream/%s" % (rule, f.key),
+                              "%s (the sequential loader behind %s) no longer keeps loading while the block it received is empty: an empty "
+                              "block in the middle of a file (the EOF marker between two concatenated BGZF files) makes fill_buf return an "
+                              "empty window, which every caller takes for end of stream — the rest of the file is silently dropped; the other "
+                              "readers skip such blocks" % (f.key, ek), f.loc(stamps[0] if stamps else 0))
+    ctx.floor(rule, "fill_buf / poll_fill_buf implementations of the BGZF readers", n, floor)
+
+
+def _leaves_loop(f, start, body):
+    b = start
+    for _ in range(12):
+        if b not in body:
+            return True
+        t = f.blocks[b]["t"]
+        if t[0] == "goto":
+            b = t[1]
+        elif t[0] == "drop":
+            b = t[2]
+        elif t[0] == "fe":
+            b = t[1]
+        else:
+            return False
+    return False
